@@ -9,6 +9,7 @@ import os
 
 import gridlib as gl
 import vlib
+import c04treewalk
 
 LEVEL = "proof"
 PID = "C04"
@@ -319,6 +320,9 @@ def run(res, tier, seed, replay_script=None):
                 obs = {}
         if nobs >= 2:
             nontrivial += 1
+    # the tree walk behind evaluate / sparse basis of Local Polynomial grids: forest and visited sequences vs the extracted model (props/c04treewalk.py)
+    if not replay_script:
+        c04treewalk.run(res, tier, seed)
     if proof_broken and not res.violations:
         res.violation("proof", "proof obligations of Properties_C04.v no longer check (%d/%d) %s" % (props["discharged"], props["obligations"], res.coverage["forbidden_tokens"][:2]),
                       {"kind": "proof-break", "theorems": props["theorems"], "log": props["log"][-3000:]}, no_input=True)
@@ -341,5 +345,8 @@ def replay(path):
     import json
     rp = json.load(open(path))
     res = vlib.Result(PID, "quick", rp.get("seed", 1), LEVEL)
+    if rp.get("driver") == "walkdrv":
+        c04treewalk.run(res, "quick", rp.get("seed", 1), replay_script=rp.get("script"))
+        return res.finish()
     run(res, "quick", rp.get("seed", 1), replay_script=rp.get("script"))
     return res.finish()
